@@ -48,11 +48,11 @@ ASSUMPTIONS = [
 FLOORS = {"quick": {"compared": 8000, "compared_ok": 2500,
                     "fam_extends": 2500, "fam_prefix": 1500,
                     "fam_schema_extends": 1500, "fam_components": 1000},
-          "thorough": {"compared": 400000, "compared_ok": 120000,
-                       "fam_extends": 100000, "fam_prefix": 80000,
-                       "fam_schema_extends": 80000,
-                       "fam_components": 60000}}
-N = {"quick": 480, "thorough": 4800}       # schema pairs per family
+          "thorough": {"compared": 1000000, "compared_ok": 350000,
+                       "fam_extends": 250000, "fam_prefix": 250000,
+                       "fam_schema_extends": 250000,
+                       "fam_components": 250000}}
+N = {"quick": 480, "thorough": 15000}       # schema pairs per family
 TEXTS = {"quick": 12, "thorough": 30}
 
 
